@@ -12,13 +12,13 @@ ORD = 2
 class _Env:
     """installs the ideal-spline stubs and capture hooks into pyins.sim"""
 
-    def __init__(self, mutate=None, order=ORD):
+    def __init__(self, mutate=None, order=ORD, symconst=True):
         import numpy as np
         from .. import symreal as S, enga
         from ..symscipy import Rot
         self.S, self.np = S, np
         S.new_ctx([('s', order)])
-        self.m = m = enga.install(symconst=True)
+        self.m = m = enga.install(symconst=symconst)
         if mutate:
             mutate(m)
         self.cap = cap = {}
@@ -41,7 +41,21 @@ class _Env:
                 return SplineFn(s.time, y)
 
             def antiderivative(s, nu=1):
-                raise NotImplementedError('antiderivative splines (initial-position form) are outside the encoded claim')
+                # ideal antiderivative: zero at the first node, a free value at every other node
+                # (the integral between nodes is not a local quantity), derivative = the function
+                if nu != 1:
+                    raise NotImplementedError('antiderivative order %r' % nu)
+                idx = len(cap.setdefault('anti', []))
+                y = S.symnp.asarray(s.y)
+                flat = y.reshape(len(y), -1)
+                vals = np.empty(flat.shape, dtype=object)
+                for k in range(flat.shape[0]):
+                    for j in range(flat.shape[1]):
+                        base = S.J(0) if k == 0 else S.var('I%d_%d_%d' % (idx, k, j))
+                        vals[k, j] = base + S.J(flat[k, j]).integ(0)
+                vals = vals.reshape(y.shape)
+                cap['anti'].append((y, vals))
+                return SplineFn(s.time, vals)
 
             def __call__(s, t, nu=0):
                 if t is not s.time:
@@ -276,6 +290,143 @@ def section_increment_wiring(rep, mutate=None):
     return obls
 
 
+def section_initial_form(rep, mutate=None):
+    """'initial position + velocity' form: with ideal interpolants and ideal antiderivatives
+    (zero at the first node, free values elsewhere, derivative = the interpolated function) the
+    trajectory generate_imu builds satisfies: first row = the supplied initial position; d alt/dt =
+    -VD; d lat/dt = VN / R_N evaluated at the latitude of the previous pass of the fixed-point
+    loop; d lon/dt = VE / ((R_E + h) cos lat) at the returned latitude; and the loop's contract:
+    it leaves early only if the latitude changed by less than ACCURACY (in metres) at EVERY node
+    in the last pass. The loop's data-dependent exits are explored by the path executor."""
+    import numpy as np
+    import z3
+    from .. import symreal as S, enga, paths
+    env = _Env(mutate, order=1, symconst=False)
+    m, cap, dfun = env.m, env.cap, env.dfun
+    SIM, T, E = m['SIM'], m['T'], m['E']
+    J, O = S.J, S.O
+    sv = S.formal(0)
+    n = 2
+    time_arr = O([S.var('T%d' % k) + sv for k in range(n)])
+    S.C.dom += [z3.Real('T0') >= 0, z3.Real('T1') > z3.Real('T0'), z3.Real('T1') <= 1000]
+    lat0 = S.declare_angle('lat_i', -80, 80)
+    lon0, alt0 = S.var('lon_i'), S.var('alt_i')
+    S.C.dom += [z3.Real('alt_i') >= -1000, z3.Real('alt_i') <= 30000]
+    vel = np.empty((n, 3), dtype=object)
+    rph = np.empty((n, 3), dtype=object)
+    for k in range(n):
+        vel[k] = [_series(S, 'vn%d' % k, 1), _series(S, 've%d' % k, 1), _series(S, 'vd%d' % k, 1)]
+        S.declare_angle('pitch%d_0' % k, -85, 85)
+        rph[k] = [_series(S, 'roll%d' % k, 1), _series(S, 'pitch%d' % k, 1), _series(S, 'head%d' % k, 1)]
+    radii_calls = []
+    real_radii = E.principal_radii
+
+    class _Done(Exception):
+        pass
+
+    def radii(lat, alt):
+        # contract-level model inside the block under test: three positive radii per node, fresh
+        # for every call (what they are is C16's subject; which arguments they are asked for and
+        # where the results go is decided here)
+        idx = len(radii_calls)
+        la = np.asarray(lat, dtype=object)
+        al = np.asarray(alt, dtype=object)
+        nn = max(la.size, al.size)
+        out = []
+        for nm in ('rn', 're', 'rp'):
+            vals = []
+            for k in range(nn):
+                v = S.var('%s_c%d_%d' % (nm, idx, k))
+                S.C.dom += [z3.Real('%s_c%d_%d' % (nm, idx, k)) >= 6.0e6, z3.Real('%s_c%d_%d' % (nm, idx, k)) <= 6.5e6] if nm != 'rp' else \
+                           [z3.Real('%s_c%d_%d' % (nm, idx, k)) >= 1.0e6, z3.Real('%s_c%d_%d' % (nm, idx, k)) <= 6.5e6]
+                vals.append(v)
+            out.append(O(vals))
+        radii_calls.append((lat, alt, out))
+        return tuple(out)
+
+    def stop(lat_in, lon_in):
+        raise _Done((lat_in, lon_in))
+    ex = paths.Exec(S.C.dom + [S.DEG > S.rat(S.DEG_LO), S.DEG < S.rat(S.DEG_HI)], timeout_ms=20000)
+    orig = ex.decide
+
+    def decide(cond):
+        for c_ in S.C.dom[getattr(ex, '_nd', 0):]:
+            ex.solver.add(c_)
+        ex._nd = len(S.C.dom)
+        for c_ in S.C.cons[getattr(ex, '_nc', 0):]:
+            ex.solver.add(c_)
+        ex._nc = len(S.C.cons)
+        return orig(cond)
+    ex.decide = decide
+    n_dom0 = len(S.C.dom)
+
+    def body():
+        ex._nc = 0
+        ex._nd = n_dom0
+        cap.clear()
+        del radii_calls[:]
+        enga._set(E, 'principal_radii', radii)
+        enga._set(T, 'mat_en_from_ll', stop)
+        lla_out = None
+        try:
+            SIM.generate_imu(time_arr, O([lat0, lon0, alt0]), rph, vel.copy(), 'rate')
+        except _Done as d_:
+            lla_out = d_.args[0]
+        finally:
+            enga._set(E, 'principal_radii', real_radii)
+            enga.restore_one(T, 'mat_en_from_ll') if hasattr(enga, 'restore_one') else None
+        if lla_out is None:
+            raise RuntimeError('generate_imu did not reach the inertial part')
+        lat_in, lon_in = lla_out
+        lon_back = O([J(lon_in[k]) - J(S.symnp.rad2deg(E.RATE)) * time_arr[k] for k in range(n)])
+        return (lat_in, lon_back), list(cap.get('cubic', [])), list(cap.get('anti', [])), list(radii_calls)
+    res, _ = ex.run(body, max_paths=200, max_decisions=80)
+    per_path = []
+    ACC = S.rat(SIM.generate_imu.__code__.co_consts[[i for i, c_ in enumerate(SIM.generate_imu.__code__.co_consts) if c_ == 0.01][0]]) if 0.01 in SIM.generate_imu.__code__.co_consts else S.rat(0.01)
+    MAX_ITER = 3
+    for pr in res:
+        if pr.status == 'abort' and pr.out == 'INFEASIBLE':
+            continue
+        if pr.status != 'ok':
+            raise RuntimeError('generate_imu (initial-position form) did not run symbolically: %s' % (pr.out,))
+        (lat, lon), cubic, anti, rcalls = pr.out
+        extra = list(pr.pc)
+        meta = {'check': 'initial_form'}
+        obls = []
+        Z = lambda name, e_, fam: obls.append(enga.zero('initial-position form: ' + name, e_, fam, extra, meta))
+        alt = alt0 + anti[0][1] if anti else None
+        Z('first row latitude = initial latitude', J(lat[0]).part(0) - lat0, 'initial-position form')
+        Z('first row longitude = initial longitude', J(lon[0]).part(0) - lon0, 'initial-position form')
+        Z('first row altitude = initial altitude', J(alt[0]).part(0) - alt0, 'initial-position form')
+        # radii calls inside generate_imu before the inertial part: one per pass of the loop (latitude of the
+        # previous pass), then one for the longitude (returned latitude); later calls belong to lla_to_ecef etc.
+        n_pass = len(anti) - 2                      # antiderivatives: altitude, one per pass, longitude
+        obls.append(enga.holds('initial-position form: between 1 and %d passes of the latitude loop' % MAX_ITER, z3.BoolVal(1 <= n_pass <= MAX_ITER), 'initial-position form', extra, meta))
+        if not (1 <= n_pass <= MAX_ITER) or len(rcalls) < n_pass + 1:
+            per_path.append(obls)
+            continue
+        at = lambda a_, k_: a_[k_] if isinstance(a_, np.ndarray) and a_.ndim else (a_[()] if isinstance(a_, np.ndarray) else a_)
+        lat_prev_deg, alt_used, radii_prev = rcalls[n_pass - 1]
+        lat_final_deg, _alt2, radii_final = rcalls[n_pass]
+        for k in range(n):
+            Z('d alt/dt = -VD at node %d' % k, J(alt[k]).part(1) + J(vel[k][2]).part(0), 'initial-position form')
+            rn_prev = J(at(radii_prev[0], k))
+            Z('altitude handed to the radii of the last pass is the integrated one, node %d' % k, J(at(alt_used, k)).part(0) - J(alt[k]).part(0), 'initial-position form')
+            Z('d lat/dt = VN / R_N(latitude of the previous pass) at node %d' % k, J(lat[k]).part(1).deg2rad() * rn_prev - J(vel[k][0]).part(0), 'initial-position form')
+            rp_f = J(at(radii_final[2], k))
+            Z('d lon/dt = VE / ((R_E + h) cos lat) at the returned latitude, node %d' % k, J(lon[k]).part(1).deg2rad() * rp_f - J(vel[k][1]).part(0), 'initial-position form')
+            Z('latitude handed to the longitude step is the returned one, node %d' % k, J(at(lat_final_deg, k)).part(0) - J(lat[k]).part(0), 'initial-position form')
+            if n_pass < MAX_ITER:
+                # early exit: the last pass moved every node by less than ACCURACY metres
+                d = (J(at(lat_prev_deg, k)).part(0) - J(lat[k]).part(0)).deg2rad() * rn_prev
+                ob = enga.holds('early exit after %d pass(es) only if the last pass moved node %d by less than ACCURACY' % (n_pass, k),
+                                z3.And(d.c0 < ACC, d.c0 > -ACC), 'initial-position form: loop contract', extra, meta)
+                obls.append(ob)
+        per_path.append(obls)
+    rep.run.encode(SIM.generate_imu)
+    return per_path
+
+
 def section_kinematics(rep):
     """K: with a FREE curve r_e(t) and free attitude C_eb(t) in the Earth frame, the lemmas
     L1-L3 + F imply the C01 oracle equations: specific force f_b = C_eb^T (r_e'' + 2 W x r_e'
@@ -409,6 +560,8 @@ def section_increments(rep, K=6, mutate=None):
 
 
 CANARIES = [
+    ('initial-position form: latitude loop leaves on a signed test', 'initial', ('SIM', 'generate_imu', 'if np.all(np.abs(delta) < ACCURACY):', 'if np.all(delta < ACCURACY):')),
+    ('initial-position form: altitude integrates +VD', 'initial', ('SIM', 'generate_imu', 'VU_spline = CubicSpline(time, -velocity_n[:, 2])', 'VU_spline = CubicSpline(time, velocity_n[:, 2])')),
     ('body frame transposition dropped', 'rate', ('SIM', 'generate_imu', 'accel = util.mv_prod(mat_ib, v_i_spline(time, 1) - g_i, at=True)', 'accel = util.mv_prod(mat_ib, v_i_spline(time, 1) - g_i, at=False)')),
     ('gravitation added instead of subtracted', 'rate', ('SIM', 'generate_imu', 'v_i_spline(time, 1) - g_i, at=True)', 'v_i_spline(time, 1) + g_i, at=True)')),
     ('inertial longitude rate', 'rate', ('SIM', 'generate_imu', "lla_inertial[:, 1] += np.rad2deg(earth.RATE) * time", "lla_inertial[:, 1] += earth.RATE * time")),
@@ -443,7 +596,7 @@ def run(run):
     rep = enga.AReport(run, box=box, consts=dict(enga.WGS84))
     run.assume('scipy CubicSpline / CubicHermiteSpline / RotationSpline are IDEAL interpolants of an arbitrary smooth motion: node values (and supplied node derivatives) reproduced, higher derivatives those of the underlying function (time-jets of order %d at each row). The size and decay of the real interpolation error ("within interpolation error that shrinks") is outside' % ORD,
                'decomposition at the scipy boundary: (L1) position nodes = inertial position, (L2) gravitation array, (L3) attitude nodes, (F) readings = definition applied to the captured quantities, (K) rotating-frame kinematics glue lemma over a free curve: together they give specific force and body rate of the motion, i.e. the C01 oracle equations; (V) returned velocity; (H1) Hermite node derivatives',
-               'covered: position-only and position+velocity input forms, rate sensors; the closed-form increment integrals of _compute_increment_readings (gyro exact through dt^4, accelerometer through dt^3: the code keeps terms through second order in the rotation vector); a body at rest. the wiring of the increment-type branch of generate_imu (spline polynomial coefficients as free symbols of the local model: rotation-vector coefficients, specific force value and slope in the start-of-interval body frame, first sample duplicated). NOT covered: the initial-position form (antiderivative splines and the fixed-point latitude iteration); that the spline coefficients scipy returns are those of the motion (interpolation error); Turntable',
+               'covered: position-only and position+velocity input forms, rate sensors; the closed-form increment integrals of _compute_increment_readings (gyro exact through dt^4, accelerometer through dt^3: the code keeps terms through second order in the rotation vector); a body at rest. the wiring of the increment-type branch of generate_imu (spline polynomial coefficients as free symbols of the local model: rotation-vector coefficients, specific force value and slope in the start-of-interval body frame, first sample duplicated). the initial-position form: ideal antiderivatives (zero at the first node, free values elsewhere, derivative = the interpolated function), trajectory rates and the contract of the fixed-point latitude loop on every exit path. NOT covered: that the spline coefficients scipy returns are those of the motion (interpolation error); Turntable',
                'symbolic ellipsoid constants; |lat| <= 85 deg; exact real arithmetic')
     timeout = 60 if run.tier == 'quick' else 300
     for form in ('position', 'position+velocity'):
@@ -453,16 +606,22 @@ def run(run):
         s.add(S.C.cons)
         s.add(S.C.dom)
         run.witness('%s form: constraint set satisfiable' % form, s.check() == z3.sat)
+    pp_ = section_initial_form(rep)
+    run.witness('initial-position form: the latitude loop is explored with early and late exits', len(pp_) >= 2)
+    rep.finish(rep.batch([o for p_ in pp_ for o in p_], timeout_s=timeout), PROP)
     rep.finish(rep.batch(section_kinematics(rep), timeout_s=timeout), PROP)
     rep.finish(rep.batch(section_stationary(rep), timeout_s=timeout), PROP)
     rep.finish(rep.batch(section_increments(rep, 5), timeout_s=timeout), PROP)
     rep.finish(rep.batch(section_increment_wiring(rep), timeout_s=timeout), PROP)
     rep.selfcheck(PROP, [{'check': 'rate', 'point': {}, 'params': {'form': 'position'}}, {'check': 'rate', 'point': {}, 'params': {'form': 'position+velocity'}},
-                         {'check': 'stationary', 'point': {}, 'params': {'form': 'position'}}, {'check': 'wiring', 'point': {}}] + [{'check': 'increments', 'point': pt} for pt in rep.points((3 if run.tier == 'quick' else 20))])
+                         {'check': 'stationary', 'point': {}, 'params': {'form': 'position'}}, {'check': 'wiring', 'point': {}}, {'check': 'initial_form', 'point': {}}] + [{'check': 'increments', 'point': pt} for pt in rep.points((3 if run.tier == 'quick' else 20))])
     for name, sec, spec in CANARIES:
         try:
-            obls = section_rate(rep, 'position', _mut(spec)) if sec == 'rate' else (
-                section_increment_wiring(rep, _mut(spec)) if sec == 'wiring' else section_increments(rep, 5, _mut(spec)))
+            if sec == 'initial':
+                obls = [o for p_ in section_initial_form(rep, _mut(spec)) for o in p_]
+            else:
+                obls = section_rate(rep, 'position', _mut(spec)) if sec == 'rate' else (
+                    section_increment_wiring(rep, _mut(spec)) if sec == 'wiring' else section_increments(rep, 5, _mut(spec)))
         except common.HarnessError as e:
             run.canary(name, False, str(e))
             continue
@@ -507,6 +666,47 @@ def replay(spec):
                 fails.append('%s increment error %.3g at dt=0.04 (%.3g at 0.02, ratio %.2f) does not fall like dt^%d' % (what, e1, e2, e1 / max(e2, 1e-300), p))
             elif e1 > 50 * sc ** (p + 1) * 0.04 ** p:
                 fails.append('%s increment error %.3g at dt=0.04 far above the O(dt^%d) level' % (what, e1, p))
+        return {'violated': bool(fails), 'detail': fails}
+    if chk == 'initial_form':
+        # initial position + velocity: the returned position must be the solution of
+        # lat' = VN / (R_N + h), lon' = VE / ((R_E + h) cos lat), alt' = -VD  (independent RK4)
+        from pyins import earth as E_
+        for name, vn0, lat0 in (('northbound', 150.0, 20.0), ('southbound', -150.0, 20.0), ('southbound, southern hemisphere', -200.0, -40.0), ('oscillating', 0.0, 55.0)):
+            dt_ = 0.5
+            tt = np.arange(0, 600 + dt_, dt_)
+            VN = vn0 + 20 * np.sin(0.01 * tt) + (80 * np.sin(0.02 * tt) if vn0 == 0 else 0)
+            VE = 60 + 30 * np.cos(0.013 * tt)
+            VD = 2 * np.sin(0.02 * tt)
+            vel = np.vstack([VN, VE, VD]).T
+            rph_ = np.zeros((len(tt), 3))
+            rph_[:, 2] = 45.0
+            tr_, _imu = sim.generate_imu(tt, np.array([lat0, 30.0, 1000.0]), rph_, vel, 'rate')
+            vfun = lambda t: np.array([vn0 + 20 * np.sin(0.01 * t) + (80 * np.sin(0.02 * t) if vn0 == 0 else 0), 60 + 30 * np.cos(0.013 * t), 2 * np.sin(0.02 * t)])
+
+            def rhs(t, y):
+                rn, re, rp = E_.principal_radii(np.degrees(y[0]), y[2])
+                v = vfun(t)
+                return np.array([v[0] / rn, v[1] / rp, -v[2]])
+            y = np.array([np.radians(lat0), np.radians(30.0), 1000.0])
+            out = [y.copy()]
+            h = dt_ / 4
+            for k in range(len(tt) - 1):
+                for j in range(4):
+                    t = tt[k] + j * h
+                    k1 = rhs(t, y)
+                    k2 = rhs(t + h / 2, y + h / 2 * k1)
+                    k3 = rhs(t + h / 2, y + h / 2 * k2)
+                    k4 = rhs(t + h, y + h * k3)
+                    y = y + h / 6 * (k1 + 2 * k2 + 2 * k3 + k4)
+                out.append(y.copy())
+            out = np.array(out)
+            e_lat = np.abs(np.radians(tr_['lat'].values) - out[:, 0]).max() * 6.37e6
+            e_lon = np.abs(np.radians(tr_['lon'].values) - out[:, 1]).max() * 6.37e6 * np.cos(np.radians(lat0))
+            e_alt = np.abs(tr_['alt'].values - out[:, 2]).max()
+            if max(e_lat, e_lon, e_alt) > 0.03:
+                fails.append('initial-position form, %s track: returned position differs from the integral of the supplied velocity by %.3g m (lat) %.3g m (lon) %.3g m (alt)' % (name, e_lat, e_lon, e_alt))
+            if tuple(tr_.iloc[0][['lat', 'lon', 'alt']].values) != (lat0, 30.0, 1000.0):
+                fails.append('initial-position form: first row is not the supplied initial position')
         return {'violated': bool(fails), 'detail': fails}
     if chk == 'wiring':
         # increment-type sensor at rest on the rotating Earth: every increment is the constant
